@@ -899,11 +899,11 @@ func (client *client) subscribeHandler(sub *packets.Subscribe) *codes.Error {
 	for k, v := range sub.Topics {
 		sub := subReq.Subscriptions[v.Name].Sub
 		subErr := converError(subReq.Subscriptions[v.Name].Error)
-		var isShared bool
+		// retained messages are never sent for a shared subscription, whatever the protocol version
+		isShared := sub.ShareName != ""
 		code := sub.QoS
 		if client.version == packets.Version5 {
-			if sub.ShareName != "" {
-				isShared = true
+			if isShared {
 				if !client.opts.SharedSubAvailable {
 					code = codes.SharedSubNotSupported
 				}
